@@ -7,10 +7,16 @@
  *   P <slot> <path>                       clockbound_open into a slot that stays open
  *   Q <slot> <rs> <rns> <ms> <mns>        clockbound_now on an open slot
  *   R <slot>                              clockbound_close the slot
+ *   F <call> <nth> <errno>                the nth (0-based) open (0) / read (1) / mmap (2) made from now on fails once
+ * open, read and mmap are defined here as well (pass-through system calls), so that a transient failure of
+ * one of them inside the library can be scripted.
  */
 #define _GNU_SOURCE
 #include <errno.h>
+#include <fcntl.h>
+#include <stdarg.h>
 #include <stddef.h>
+#include <sys/mman.h>
 #include <stdio.h>
 #include <string.h>
 #include <sys/syscall.h>
@@ -36,6 +42,33 @@ int clock_gettime(clockid_t clk, struct timespec *ts) {
         }
         *ts = is_real ? v_real : v_mono;
         return 0;
+}
+
+static int f_call = -1, f_nth = 0, f_errno = 0, f_seen = 0;
+static int f_hit(int call) {
+        if (f_call != call) return 0;
+        if (f_seen++ == f_nth) { errno = f_errno; return 1; }
+        return 0;
+}
+int open(const char *path, int flags, ...) {
+        mode_t mode = 0;
+        if (flags & (O_CREAT | O_TMPFILE)) { va_list ap; va_start(ap, flags); mode = va_arg(ap, mode_t); va_end(ap); }
+        if (f_hit(0)) return -1;
+        return (int)syscall(SYS_openat, AT_FDCWD, path, flags, mode);
+}
+int open64(const char *path, int flags, ...) {
+        mode_t mode = 0;
+        if (flags & (O_CREAT | O_TMPFILE)) { va_list ap; va_start(ap, flags); mode = va_arg(ap, mode_t); va_end(ap); }
+        if (f_hit(0)) return -1;
+        return (int)syscall(SYS_openat, AT_FDCWD, path, flags, mode);
+}
+ssize_t read(int fd, void *buf, size_t n) {
+        if (f_hit(1)) return -1;
+        return (ssize_t)syscall(SYS_read, fd, buf, n);
+}
+void *mmap(void *addr, size_t len, int prot, int flags, int fd, off_t off) {
+        if (f_hit(2)) return MAP_FAILED;
+        return (void *)syscall(SYS_mmap, addr, len, prot, flags, fd, off);
 }
 
 static void print_err(const char *what, const clockbound_err *e) {
@@ -73,6 +106,14 @@ int main(void) {
                         fflush(stdout);
                         continue;
                 }
+                if (line[0] == 'F') {
+                        int call, nth, e;
+                        if (sscanf(line + 2, "%d %d %d", &call, &nth, &e) != 3) { printf("bad\n"); fflush(stdout); continue; }
+                        f_call = call; f_nth = nth; f_errno = e; f_seen = 0;
+                        printf("armed\n");
+                        fflush(stdout);
+                        continue;
+                }
                 if (line[0] == 'R') {
                         int slot;
                         if (sscanf(line + 2, "%d", &slot) == 1 && slot >= 0 && slot < 16 && slots[slot]) { clockbound_close(slots[slot]); slots[slot] = NULL; }
@@ -100,6 +141,7 @@ int main(void) {
                         memset(&err, 0x5a, sizeof err);
                         v_on = 0;
                         clockbound_ctx *ctx = clockbound_open(path, &err);
+                        f_call = -1;
                         if (!ctx) {
                                 print_err("open", &err);
                                 fflush(stdout);
